@@ -37,7 +37,7 @@ BOUND = {k: v + "; plus: " + "list names with a dot next to their stem; a user-w
 
 LISTS = ["c", "c1", "d"]
 VARIANTS = ["plain", "filter", "rand", "randseed", "randseedref", "multi", "rank", "or_other", "shared", "search",
-            "multi_or_other", "unused", "fromrepeat", "fromrepeat-filter", "randfalse", "randfalseseed", "randfilter", "multirandfalse", "randseedexpr", "randseedexpr2", "search_rand", "search_multi"]
+            "multi_or_other", "unused", "fromrepeat", "fromrepeat-filter", "randfalse", "randfalseseed", "randfilter", "multirandfalse", "randseedexpr", "randseedexpr2", "search_rand", "search_multi", "fromrepeat-sibling"]
 REJECT_VARS = {"search_rand", "search_multi"}  # a search() list may not be shared with a select that is not using search()
 
 
@@ -213,6 +213,13 @@ def build_lists(case):
         qs.append({"type": "select_one c", "name": "s2", "label": "S2", "parameters": "randomize=true"} if v == "search_rand" else {"type": "select_multiple c", "name": "s2", "label": "S2"})
     elif v == "unused":
         qs = [qs[0]]
+    elif v == "fromrepeat-sibling":
+        # the filter also refers to a question of a group whose name extends the repeat's name (rp_info next to rp)
+        sel["type"] = "select_one ${rq}"
+        sel["choice_filter"] = "${rq} != ${skip} and ${rq} != ${rp_x}"
+        qs = [{"type": "begin repeat", "name": "rp", "label": "RP"}, {"type": "text", "name": "rq", "label": "RQ"}, {"type": "end repeat"},
+              {"type": "begin group", "name": "rp_info", "label": "RI"}, {"type": "text", "name": "skip", "label": "SK"}, {"type": "end group"},
+              {"type": "text", "name": "rp_x", "label": "RX"}, *qs]
     elif v in ("fromrepeat", "fromrepeat-filter"):
         # the select's items are the answers given to a question of a repeat
         sel["type"] = "select_one ${rq}"
@@ -338,7 +345,18 @@ def check_lists(case, wb, out, viol):
     if v.startswith("fromrepeat"):
         its = s_el.findall(O.X + "itemset")
         pred = "./rq != ''" if v == "fromrepeat" else "./rq != 'a'"
+        if v == "fromrepeat-sibling":
+            pred = f"./rq != {base}/rp_info/skip and ./rq != {base}/rp_x"
         ok = len(its) == 1 and norm_ws(its[0].get("nodeset") or "").replace("[ ", "[").replace(" ]", "]") == f"{base}/rp[{pred}]"
+        if v == "fromrepeat-sibling" and len(its) == 1:
+            # the two outside operands may be written relative to the select: they must resolve to their own nodes
+            from xmc.pathmodel import Path
+
+            m = re.match(r"^(\S+)\[ ?\./rq != (\S+) and \./rq != (\S+) ?\]$", norm_ws(its[0].get("nodeset") or ""))
+            ctx = [*base.strip("/").split("/"), "s"]
+            ok = bool(m) and m.group(1) == f"{base}/rp" and all(
+                Path(raw).ok and Path(raw).resolve(ctx) == [*base.strip("/").split("/"), *tail]
+                for raw, tail in ((m.group(2), ["rp_info", "skip"]), (m.group(3), ["rp_x"])))
         if ok:
             val, lab = its[0].find(O.X + "value"), its[0].find(O.X + "label")
             ok = val is not None and lab is not None and val.get("ref") == "rq" and lab.get("ref") == "rq"
